@@ -178,7 +178,12 @@ def rule_close_frame_owner(ctx):
                 k = norm.key(op, res)
                 if k[0] != "c":
                     # opcode computed at run time: only sendMessage-like sites pass variables restricted to 0/1/2
-                    srcs = sources(cg, f, op)
+                    if is_self_attr(op):
+                        # an attribute of the protocol: every value ever stored into it (anywhere in the call graph) is a source
+                        stores = [(g_, s_.value) for g_ in cg.funcs for s_ in ast.walk(g_.node) if isinstance(s_, ast.Assign) and any(is_self_attr(t_, op.attr) for t_ in s_.targets)]
+                        srcs = [x for g_, v_ in stores for x in sources(cg, g_, v_)] if stores else [("opaque", f, op)]
+                    else:
+                        srcs = sources(cg, f, op)
                     vals = set()
                     for kind, sf, e in srcs:
                         kk = norm.key(e, norm.Resolver(ctx.program, sf.module, sf.cls)) if kind == "expr" else ("e", "")
